@@ -146,7 +146,7 @@ def run(ck):
                     bad.append((what, d))
             # process attributes must survive even the very FIRST call (library statics and heap may legitimately settle there)
             if 'pre' in ds:
-                d = digest_eq({k: v for k, v in ds['pre'].items() if k in ('fds', 'env', 'cwd', 'umask', 'sigmask', 'sigpending', 'sigact')}, {k: v for k, v in ds['end'].items() if k in ('fds', 'env', 'cwd', 'umask', 'sigmask', 'sigpending', 'sigact')})
+                d = digest_eq({k: v for k, v in ds['pre'].items() if k in ('fds', 'env', 'cwd', 'umask', 'sigmask', 'sigpending', 'sigact', 'misc')}, {k: v for k, v in ds['end'].items() if k in ('fds', 'env', 'cwd', 'umask', 'sigmask', 'sigpending', 'sigact', 'misc')})
                 if d:
                     bad.append(('process_attributes_changed_since_before_first_call', d))
             if heap:
